@@ -975,6 +975,16 @@ ADDENDA = {
            "marble world; native: one day + 200.5 s).",
     "C42": " Scenario 'another CatchScheduler (another handler) wrapped the same action before'; frame unit instance-state: no method "
            "writes a mutable container held in a class attribute.",
+    "C08": " Besides the opacity analysis, every element-level refinement proof is a unit of this check: the K1 contracts of the element-wise, "
+           "aggregating and time-shifting operators (C05, C06, C15) and the K2 refinements of the subjects (C20-C23, ReplaySubject) quantify over an "
+           "uninterpreted element sort - None, 0, False, '', () are among its values and truthiness is a free predicate - so 'emitted, counted, "
+           "buffered, compared, delayed, replayed like any other element' is what those obligations say (64 units).",
+    "C07": " A slice pipeline built from other stages than those with closed forms drifts to slicerun.py (list slicing on sources of length 0..5, "
+           "all start / stop in -6..6, steps 1, 2, 3, 6), which is also the thorough-tier cross-check.",
+    "C28": " HistoricalScheduler.__init__ and TestScheduler.schedule_absolute (vtsub.py) are under function contracts: the clock starts at the given "
+           "instant or the epoch, the due time is handed on as seconds with the same action and state, nothing else of virtual time is overridden.",
+    "C34": " ThreadPoolScheduler: one executor, a thread factory whose startable submits exactly the target once to it (executor contract assumed), "
+           "cancel cancels that submission; nothing else overridden.",
     "C25": " The action of a Disposable is user code: the monitor harness also runs the path on which it raises - the exception may leave "
            "dispose(), every critical section on the way out still keeps the rely (is_disposed never goes back to False) and the claimed "
            "token stays spent (no second run).",
